@@ -43,6 +43,64 @@ func (vc *VC) smtFor(o *Obligation, withModel bool) string {
 	return b.String()
 }
 
+func smtTokens(s string) []string {
+	return strings.FieldsFunc(s, func(r rune) bool { return r == ' ' || r == '(' || r == ')' || r == '\n' })
+}
+
+// lightQuery renders the obligation without the facts that mention recursive spec
+// functions (sf_*). Dropping assumptions only weakens the query, so unsat is still a
+// proof; it avoids matching loops on obligations that do not need those facts.
+// ok is false when the goal itself depends on such a function.
+func (vc *VC) lightQuery(o *Obligation) (string, bool) {
+	tainted := map[string]bool{}
+	isTainted := func(s string) bool {
+		if strings.Contains(s, "sf_") {
+			return true
+		}
+		for _, t := range smtTokens(s) {
+			if tainted[t] {
+				return true
+			}
+		}
+		return false
+	}
+	var b strings.Builder
+	b.WriteString("(set-logic ALL)\n" + slicePreamble + "\n")
+	for _, d := range vc.dtOrder {
+		b.WriteString(d + "\n")
+	}
+	any := false
+	for _, s := range vc.script[:o.Prefix] {
+		switch {
+		case strings.HasPrefix(s, "(define-fun-rec "):
+			any = true
+			continue
+		case strings.HasPrefix(s, "(define-fun "):
+			if isTainted(s) {
+				f := strings.Fields(s)
+				tainted[f[1]] = true
+				any = true
+				continue
+			}
+		case strings.HasPrefix(s, "(assert "):
+			if isTainted(s) {
+				any = true
+				continue
+			}
+		}
+		b.WriteString(s + "\n")
+	}
+	if !any || isTainted(o.Reach.S) || isTainted(o.Goal.S) || (o.Known != nil && isTainted(o.KnownTerm.S)) {
+		return "", false
+	}
+	b.WriteString("(assert " + o.Reach.S + ")\n")
+	if o.Known != nil {
+		b.WriteString("(assert (not " + o.KnownTerm.S + "))\n")
+	}
+	b.WriteString("(assert (not " + o.Goal.S + "))\n(check-sat)\n")
+	return b.String(), true
+}
+
 type solverSpec struct {
 	name string
 	args func(file string, timeoutS int) []string
@@ -174,6 +232,55 @@ func solveAll(vcs []*VC, cfg solveCfg) {
 }
 
 func solveOne(vc *VC, o *Obligation, cfg solveCfg) {
+	tryWeaker := func(text, tag string) bool {
+		file := filepath.Join(cfg.dir, smtQuote(o.Name)+"."+tag+".smt2")
+		if os.WriteFile(file, []byte(text), 0o644) != nil {
+			return false
+		}
+		defer os.Remove(file)
+		q := cfg.fullS / 4
+		if q < 3 {
+			q = 3
+		}
+		r := race(file, 2, q)
+		if r.result == "unsat" {
+			o.Status, o.Solver, o.TimeS, o.SMTSize = "proved", r.solver+"("+tag+")", r.timeS, len(text)
+			return true
+		}
+		return false
+	}
+	if !o.ExpectSat {
+		strong := *o
+		if panicKinds[o.Kind] && !o.Goal.IsFalse() {
+			// a panic that the contract allows: first try the stronger "this point cannot
+			// panic at all" (keeps a quantified panic condition out of the query)
+			strong.Goal = tFalse
+			if text, ok := vc.lightQuery(&strong); ok && tryWeaker(text, "nopanic-light") {
+				return
+			}
+			if tryWeaker(vc.smtFor(&strong, false), "nopanic") {
+				return
+			}
+		}
+		if text, ok := vc.lightQuery(o); ok && tryWeaker(text, "light") {
+			return
+		}
+		// recursive spec functions left uninterpreted: the unfolding facts stated as
+		// invariants/lemmas (each proved with the definition) are usually all that is needed
+		if len(vc.recDecl) > 0 {
+			text := vc.smtFor(o, false)
+			n := 0
+			for def, decl := range vc.recDecl {
+				if strings.Contains(text, def+"\n") {
+					text = strings.Replace(text, def+"\n", decl+"\n", 1)
+					n++
+				}
+			}
+			if n > 0 && tryWeaker(text, "norec") {
+				return
+			}
+		}
+	}
 	text := vc.smtFor(o, true)
 	o.SMTSize = len(text)
 	file := filepath.Join(cfg.dir, smtQuote(o.Name)+".smt2")
@@ -182,7 +289,11 @@ func solveOne(vc *VC, o *Obligation, cfg solveCfg) {
 		o.Detail = err.Error()
 		return
 	}
-	r := race(file, cfg.quickS, cfg.fullS)
+	full := cfg.fullS
+	if o.ExpectSat && full > 5 {
+		full = 5 // vacuity guards: "not refuted within 5 s" is accepted
+	}
+	r := race(file, cfg.quickS, full)
 	o.Solver = r.solver
 	o.TimeS = r.timeS
 	keep := false
